@@ -490,6 +490,14 @@ pub fn execute_c05(plan: &Plan) -> Outcome {
                 cases.push((DirScript { truncate_at: Some(k), after_truncate: 1, ..Default::default() }, format!("truncate at {k}/{n} then close"), k));
             }
         }
+        // the same flips with the link holding everything back for a while, so that the receiver gets the intact frames
+        // before the tampered one and the tampered one in a single read (a decoder that handles several frames per call)
+        // (on the WebSocket carrier the upgrade exchange goes through unhindered: holding it back would change what the client sends)
+        let hold_from = upgrade_end.unwrap_or(0);
+        for k in (hold_from..n).filter(|k| k % 2 == plan.seed % 2) {
+            let bit = 1u8 << g.below(8);
+            cases.push((DirScript { flips: vec![(k, bit)], stall: Some((hold_from, 400)), ..Default::default() }, format!("flip bit {bit:#04x} of byte {k}/{n}, stream delivered in one piece"), k));
+        }
         let edits = plan.extra["random_edits"].as_u64().unwrap_or(20);
         for _ in 0..edits {
             let a = g.range(0, n - 2);
